@@ -91,7 +91,7 @@ PROPS = {
         "timeout": 1500,
     },
     "C02": {
-        "lean_modules": ["JrpcProofs.Props.C02", "JrpcProofs.Props.Epoch", "JrpcProofs.Lemmas.Corr", "JrpcProofs.Facts.Corr", "JrpcProofs.Facts.Frames", "JrpcProofs.Facts.OneShot", "JrpcProofs.Facts.Writers", "JrpcProofs.Facts.Call", "JrpcProofs.Facts.Interp", "JrpcProofs.Facts.ErrTypes", "JrpcProofs.Trans.NormalizeID"],
+        "lean_modules": ["JrpcProofs.Props.C02", "JrpcProofs.Props.Epoch", "JrpcProofs.Lemmas.Corr", "JrpcProofs.Facts.Corr", "JrpcProofs.Facts.Frames", "JrpcProofs.Facts.OneShot", "JrpcProofs.Facts.Writers", "JrpcProofs.Facts.Call", "JrpcProofs.Facts.Interp", "JrpcProofs.Facts.ErrTypes", "JrpcProofs.Trans.NormalizeID", "JrpcProofs.Facts.Cancel"],
         "assumptions": [
             "hooks only delay goroutines; two log entries written by different goroutines around one channel rendezvous may come in either order and are reconciled by the replayer (tau steps are counted in the evidence)",
             "ids of calls that are inside doRequest at the same time differ (id counter; int64 to float64 keys are injective below 2^53 calls)",
